@@ -27,6 +27,11 @@ def _threshold(paths: List[Path], param: str) -> Optional[Tuple[Any, str]]:
             if k[0] == "op" and k[1] == "<" and k[2] == N(param) and k[3][0] == "c":
                 exc = dotted(p.value[1]) if p.value and p.value[0] == "call" else dotted(p.value) if p.value else ""
                 return k[3][1], exc
+            # `param.bit_length() > n` (n < param.bit_length()): rejects |param| >= 2**n, i.e. negatives below -(2**n) + 1
+            bl = ("call", ("a", N(param), "bit_length"), (), ())
+            if k[0] == "op" and k[1] == "<" and k[3] == bl and k[2][0] == "c" and isinstance(k[2][1], int):
+                exc = dotted(p.value[1]) if p.value and p.value[0] == "call" else dotted(p.value) if p.value else ""
+                return -(1 << k[2][1]) + 1, exc
     return None
 
 
@@ -239,6 +244,33 @@ def accepted_bytes(loop: Dict[str, Any]) -> Optional[int]:
 # rules
 
 
+def _threshold_chain(fn: ast.AST):
+    """`if value <= C: return k` ... `return K`  ->  ([(C, k), ...], K); `<` bounds are converted to `<=`"""
+    v = fn.args.args[0].arg
+    steps = []
+    last = None
+    for st in fn.body:
+        if isinstance(st, ast.If) and isinstance(st.test, ast.Compare) and len(st.test.ops) == 1 and isinstance(st.test.left, ast.Name) and st.test.left.id == v \
+                and len(st.body) == 1 and isinstance(st.body[0], ast.Return) and not st.orelse:
+            try:
+                c = ast.literal_eval(st.test.comparators[0])
+                r = ast.literal_eval(st.body[0].value)
+            except Exception:
+                continue
+            if isinstance(st.test.ops[0], ast.LtE) and isinstance(c, int) and c >= 0:
+                steps.append((c, r))
+            elif isinstance(st.test.ops[0], ast.Lt) and isinstance(c, int) and c > 0:
+                steps.append((c - 1, r))
+        elif isinstance(st, ast.Return) and st.value is not None:
+            try:
+                last = ast.literal_eval(st.value)
+            except Exception:
+                return None
+    if len(steps) < 2 or last is None:
+        return None
+    return steps, last
+
+
 def rule_L4(ctx, rule: str = "L4") -> None:
     mod = ctx.repo.mod(M_INIT)
     f = varint_facts(ctx)
@@ -283,7 +315,27 @@ def rule_L4(ctx, rule: str = "L4") -> None:
         ctx.refuted(rule, "size_varint:group-width", f"divisor={f['size_divisors']} shift={group}", loc,
                     f"size_varint divides the bit length by {f['size_divisors']}, dump_varint shifts by {group}", "size_varint(1 << 7)")
     elif not f["size_divisors"] or f["size_pos_shape"] != "ceil":
-        ctx.inconclusive(rule, "size_varint:positive", f"positive branch not of the form ceil(bit_length/{group}): {f['size_pos_terms']}", loc)
+        chain = _threshold_chain(mod.func("size_varint"))
+        if chain is None:
+            ctx.inconclusive(rule, "size_varint:positive", f"positive branch not of the form ceil(bit_length/{group}): {f['size_pos_terms']}", loc)
+        else:
+            steps, last = chain
+            bad = None
+            for i, (bound, ret) in enumerate(steps, start=1):
+                # `value <= bound` returns ret: values up to bound take ret bytes
+                if ret != i or bound != (1 << (group * i)) - 1:
+                    bad = bad or (i, bound, ret)
+            if bad is None and (last != len(steps) + 1 or len(steps) != math.ceil(64 / group) - 1):
+                bad = (len(steps) + 1, None, last)
+            if bad:
+                i, bound, ret = bad
+                want = (1 << (group * i)) - 1
+                wit = min(x for x in (bound, want) if x is not None) + 1 if bound is not None else (1 << 63)
+                ctx.refuted(rule, "size_varint:positive", f"step{i}:<={bound}->{ret}", loc,
+                            f"the threshold chain of size_varint says values up to {bound if bound is None else hex(bound)} take {ret} byte(s); a varint of {i} byte(s) holds values up to "
+                            f"{hex(want)} (2**{group * i} - 1): sizes are wrong between the two bounds", f"size_varint({wit}) vs len(encode_varint({wit}))")
+            else:
+                ctx.proved(rule, "size_varint:group-width", loc, f"threshold chain with {len(steps)} steps at 2**({group}k) - 1")
     else:
         ctx.proved(rule, "size_varint:group-width", loc, f"ceil(bit_length / {group})")
     mask = (1 << group) - 1
